@@ -427,6 +427,7 @@ let reg_run (line : string) : string =
         new_service (bytes_of_hex v) (bytes_of_hex p) (bytes_of_hex ver) (bytes_of_hex u) (bytes_of_hex d)
       | _ -> failwith "reg-run: no svc") in
   let hs = (fun _ m _ -> Do (AStdError (EMethodNotImplemented, m), fun r -> Ret (res_is_error r))) in
+  let draining = ref false in
   let direct (req : send_res) : n list =
     match req with
     | SSent msg ->
@@ -443,8 +444,11 @@ let reg_run (line : string) : string =
       | "reg" :: name :: descr :: _ ->
         let (r', refused) = register !reg (bytes_of_hex name) (bytes_of_hex descr) in
         reg := r'; if refused then "x" else "o"
-      | "listen" :: _ -> if !reg.r_running then "already" else (reg := set_running !reg true; "listening")
-      | "shutdown" :: _ -> if !reg.r_running then (reg := set_running !reg false; "stopped") else "notlistening"
+      | ("listen" | "listen2") :: _ -> if !reg.r_running then "already" else (reg := set_running !reg true; "listening")
+      | "shutdown" :: _ -> if !reg.r_running then (reg := set_running !reg false; draining := false; "stopped") else "notlistening"
+      (* Shutdown with a connection still open: the service keeps serving it; for the registry it is still listening *)
+      | "shutdown-keep" :: _ -> if !reg.r_running && not !draining then (draining := true; "draining") else "notlistening"
+      | "drop" :: _ -> if !draining then (draining := false; reg := set_running !reg false; "stopped") else "notdraining"
       | "info" :: _ ->
         let rep = direct (client_send N0 (org_varlink_service @ [n_of_int 46] @ m_GetInfo) PNone) in
         "info " ^ hex_of_bytes rep ^ (if !reg.r_running then " client " ^ client rep info_schema else "")
@@ -479,6 +483,9 @@ let addr_run (line : string) : string =
         end
       | "stop" :: _ ->
         if !st.sv_running then (let (st', w') = svc_stop !st !w in st := st'; w := w'; "stopped") else "notrunning"
+      | "shutdown" :: _ ->
+        let was = !st.sv_running in
+        let (st', w') = svc_stop !st !w in st := st'; w := w'; if was then "stopped" else "shutdown"
       | "connect" :: a :: _ -> show (client_connect (bytes_of_hex a) !st !w)
       | "exists" :: p :: _ -> if List.mem (bytes_of_hex p) !w.w_files then "1" else "0"
       | "stale" :: p :: _ -> w := { !w with w_files = bytes_of_hex p :: remove_file (bytes_of_hex p) !w.w_files }; "done"
